@@ -110,6 +110,10 @@ pub fn check_issuance(fmt: Fmt, issued: &str, salts: &[String]) -> IssCheck {
     for s in salts {
         *avail.entry(s.clone()).or_insert(0) += 1;
     }
+    // the draws logged during ONE issuance are pairwise distinct already
+    if let Some((s, n)) = avail.iter().find(|(_, n)| **n > 1) {
+        c.problems.push(format!("the same salt {:?} was drawn {} times during one issuance", s, n));
+    }
     let mut embedded = vec![];
     collect_digests(&payload, &mut embedded, &mut c.problems);
     for d in &parts.disclosures {
